@@ -188,6 +188,12 @@ func IntProps(propContainer map[string]object.PanObject) map[string]object.PanOb
 			) object.PanObject {
 				self, other, err := checkIntInfixArgs(args, "**", object.NewPanInt(1))
 				if err == nil {
+					// exact integer path (math.Pow loses precision beyond 2^53)
+					if pow, ok := intPow(self.Value, other.Value); ok {
+						// NOTE: Int's descendants also call this
+						return object.NewInheritedInt(args[0].Proto(), pow)
+					}
+
 					res := math.Pow(float64(self.Value), float64(other.Value))
 					// check if f is integer
 					if math.Floor(res) == res {
@@ -459,6 +465,39 @@ func IntProps(propContainer map[string]object.PanObject) map[string]object.PanOb
 			},
 		),
 	}
+}
+
+// intPow returns base**exp if exp is not negative and the result fits in int64.
+func intPow(base, exp int64) (int64, bool) {
+	if exp < 0 {
+		return 0, false
+	}
+
+	switch base {
+	case 0:
+		if exp == 0 {
+			return 1, true
+		}
+		return 0, true
+	case 1:
+		return 1, true
+	case -1:
+		if exp%2 == 0 {
+			return 1, true
+		}
+		return -1, true
+	}
+
+	// |base| >= 2: base**64 never fits in int64
+	if exp >= 64 {
+		return 0, false
+	}
+
+	pow := new(big.Int).Exp(big.NewInt(base), big.NewInt(exp), nil)
+	if !pow.IsInt64() {
+		return 0, false
+	}
+	return pow.Int64(), true
 }
 
 func checkIntInfixArgs(
